@@ -480,7 +480,7 @@ Section InvProofs.
     exists f m, decl_node f S nd = Some m /\ fvals (i_props r) = fst m /\ i_req r = snd m.
 
   Definition good (k : str) (e : ir) : Prop :=
-    exists nd, alookup k S = Some nd /\ i_name e = Some k /\ clean_ir e /\ member_ok nd e.
+    exists nd, alookup k S = Some nd /\ i_name e = Some k /\ clean_ir e /\ member_ok nd e /\ kind_ok nd e.
 
   Definition Inv (s : st) : Prop :=
     (forall k e, In (k, e) (parsed s) -> good k e /\ (i_id e < nid s)%N) /\ cycles s = [].
@@ -520,7 +520,7 @@ Section InvProofs.
 
   Lemma good_member_ref : forall m e, good m e -> member_ok (Ref m) e.
   Proof.
-    intros m e (nd & Hl & _ & _ & (f & mm & Hd & H1 & H2)).
+    intros m e (nd & Hl & _ & _ & (f & mm & Hd & H1 & H2) & _).
     exists (Datatypes.S f), mm. simpl. rewrite Hl. auto.
   Qed.
 
@@ -778,10 +778,10 @@ Section StepProofs.
   Lemma finish_named : forall n nd x s r s',
     alookup n S = Some nd ->
     finish S (Some n) x s = (r, s') -> events s' = [] -> Inv s ->
-    i_name x = Some n -> clean_ir x -> member_ok nd x -> (i_id x < nid s)%N ->
+    i_name x = Some n -> clean_ir x -> member_ok nd x -> kind_ok nd x -> (i_id x < nid s)%N ->
     Inv s' /\ r = x /\ alookup n (parsed s') = Some x.
   Proof.
-    intros n nd x s r s' Hl H He HI Hn Hc Hmem Hid.
+    intros n nd x s r s' Hl H He HI Hn Hc Hmem Hkind Hid.
     destruct (spec_facts S HS _ _ Hl) as (_ & Hcls & Hne & _).
     unfold finish in H. rewrite Hne in H. simpl negb in H. cbv iota in H.
     assert (T : (match i_ty x with Some (TyPrim _) => negb (i_enum x) | _ => false end
@@ -897,10 +897,10 @@ Section StepProofs.
       intros n nd s r s' H He Ho HI Hl.
       destruct (spec_facts S HS _ _ Hl) as (Hc & Hcls & Hne & Hk).
       assert (G : forall x t t', finish S (Some n) x t = (r, t') -> events t' = [] -> Inv t ->
-                  i_name x = Some n -> clean_ir x -> member_ok nd x -> (i_id x < nid t)%N ->
+                  i_name x = Some n -> clean_ir x -> member_ok nd x -> kind_ok nd x -> (i_id x < nid t)%N ->
                   Inv t' /\ good n r /\ alookup n (parsed t') = Some r).
-      { intros x t t' Hf Hev Hi Hn Hcl Hmem Hid.
-        destruct (finish_named _ _ _ _ _ _ Hl Hf Hev Hi Hn Hcl Hmem Hid) as (A & -> & C).
+      { intros x t t' Hf Hev Hi Hn Hcl Hmem Hkind Hid.
+        destruct (finish_named _ _ _ _ _ _ Hl Hf Hev Hi Hn Hcl Hmem Hkind Hid) as (A & -> & C).
         split; [exact A|]. split; [|exact C]. exists nd. auto. }
       destruct nd; try discriminate; cbn -[finish parse_props parse_items parse_list] in H; rewrite Hne, Hcls in H.
       - (* Obj *)
@@ -908,7 +908,7 @@ Section StepProofs.
         pose proof (le_finish S (Some n) (IR (nid s1) (Some n) (Some TyObject) props req None None None None false false false false false false) (bump s1)) as L.
         rewrite H in L. simpl in L. destruct L as (L1 & L2 & _). simpl in L1, L2.
         destruct (props_ok S rec Hrec Hm _ _ _ _ _ _ Hc Hk E (L1 He) (L2 Ho) HI) as (I1 & F).
-        eapply G; [exact H | exact He | apply Inv_bump, I1 | reflexivity | apply clean_mk; discriminate | | simpl; lia].
+        eapply G; [exact H | exact He | apply Inv_bump, I1 | reflexivity | apply clean_mk; discriminate | | reflexivity | simpl; lia].
         exists 1%nat, (merge_into [] (map (fun kv => (fst kv, ty_of (snd kv))) ps), req). simpl. auto.
       - (* Arr *)
         simpl in Hc.
@@ -920,8 +920,9 @@ Section StepProofs.
         destruct L' as (L1' & L2' & L3' & _). simpl in L3'.
         destruct (items_ok S rec Hrec _ _ _ _ _ Hc E1 (L1' (L1 He)) (L2' (L2 Ho)) HI) as (I1 & A1).
         destruct (items_ok S rec Hrec _ _ _ _ _ Hc E2 (L1 He) (L2 Ho) (Inv_bump _ I1)) as (I2 & A2).
-        eapply G; [exact H | exact He | exact I2 | reflexivity | apply clean_mk; discriminate | | simpl; lia].
-        exists 1%nat, ([], []). simpl. auto.
+        eapply G; [exact H | exact He | exact I2 | reflexivity | apply clean_mk; discriminate | | | simpl; lia].
+        { exists 1%nat, ([], []). simpl. auto. }
+        { unfold kind_ok, struct_of. cbn. rewrite str_eqb_refl. cbn. f_equal. eapply item_ty; eassumption. }
       - (* OneOf *)
         simpl in Hc.
         destruct (parse_list rec l s) as [ms s1] eqn:E.
@@ -930,7 +931,7 @@ Section StepProofs.
         destruct (list_ok S rec Hrec Hm _ _ _ _ (core_items_members _ Hc)
                     (fun x k Hx Hkx => False_ind _ (core_items_nokeys _ Hc x k Hx Hkx)) E (L1 He) (L2 Ho) HI) as (I1 & _).
         eapply G; [exact H | exact He | apply Inv_bump, I1 | reflexivity
-                  | apply clean_mk; intros n0; destruct (filter_members ms); discriminate | | simpl; lia].
+                  | apply clean_mk; intros n0; destruct (filter_members ms); discriminate | | exact I | simpl; lia].
         exists 1%nat, ([], []). simpl. auto.
       - (* AnyOf *)
         simpl in Hc.
@@ -940,7 +941,7 @@ Section StepProofs.
         destruct (list_ok S rec Hrec Hm _ _ _ _ (core_items_members _ Hc)
                     (fun x k Hx Hkx => False_ind _ (core_items_nokeys _ Hc x k Hx Hkx)) E (L1 He) (L2 Ho) HI) as (I1 & _).
         eapply G; [exact H | exact He | apply Inv_bump, I1 | reflexivity
-                  | apply clean_mk; intros n0; destruct (filter_members ms); discriminate | | simpl; lia].
+                  | apply clean_mk; intros n0; destruct (filter_members ms); discriminate | | exact I | simpl; lia].
         exists 1%nat, ([], []). simpl. auto.
       - (* AllOf *)
         simpl in Hc.
@@ -952,14 +953,16 @@ Section StepProofs.
           induction l as [|y l IH]; [contradiction|]. apply in_or_app.
           destruct Hx as [->|Hx]; [left; exact Hkx | right; apply IH, Hx]. }
         destruct (list_ok S rec Hrec Hm _ _ _ _ Hc Hk' E (L1 He) (L2 Ho) HI) as (I1 & F).
-        eapply G; [exact H | exact He | apply Inv_bump, I1 | reflexivity | apply clean_mk; discriminate | | simpl; lia].
+        eapply G; [exact H | exact He | apply Inv_bump, I1 | reflexivity | apply clean_mk; discriminate | | reflexivity | simpl; lia].
         eapply allof_member_ok; [exact F | reflexivity | reflexivity].
       - (* Prim *)
-        eapply G; [exact H | exact He | apply Inv_bump, HI | reflexivity | apply clean_mk; discriminate | | simpl; lia].
-        exists 1%nat, ([], []). simpl. auto.
+        eapply G; [exact H | exact He | apply Inv_bump, HI | reflexivity | apply clean_mk; discriminate | | | simpl; lia].
+        { exists 1%nat, ([], []). simpl. auto. }
+        { unfold kind_ok, struct_of. cbn. rewrite str_eqb_refl. reflexivity. }
       - (* EnumN *)
-        eapply G; [exact H | exact He | apply Inv_bump, HI | reflexivity | apply clean_mk; discriminate | | simpl; lia].
-        exists 1%nat, ([], []). simpl. auto.
+        eapply G; [exact H | exact He | apply Inv_bump, HI | reflexivity | apply clean_mk; discriminate | | | simpl; lia].
+        { exists 1%nat, ([], []). simpl. auto. }
+        { unfold kind_ok, struct_of. cbn. rewrite str_eqb_refl. reflexivity. }
       - (* MapN *)
         simpl in Hc.
         destruct (rec None nd s) as [ap s1] eqn:E.
@@ -967,9 +970,10 @@ Section StepProofs.
         rewrite H in L. simpl in L. destruct L as (L1 & L2 & _). simpl in L1, L2.
         assert (CA : core_anon nd = true) by (unfold core_anon; rewrite Hc, orb_true_r; reflexivity).
         assert (NK : forall k, In k (prop_keys nd) -> ~ In k (map fst S)) by (destruct nd; try discriminate; intros k0 []).
-        pose proof (Hrec None nd s ap s1 E (L1 He) (L2 Ho) HI CA NK) as (I1 & _).
-        eapply G; [exact H | exact He | apply Inv_bump, I1 | reflexivity | apply clean_mk; discriminate | | simpl; lia].
-        exists 1%nat, ([], []). simpl. auto.
+        pose proof (Hrec None nd s ap s1 E (L1 He) (L2 Ho) HI CA NK) as (I1 & A1).
+        eapply G; [exact H | exact He | apply Inv_bump, I1 | reflexivity | apply clean_mk; discriminate | | | simpl; lia].
+        { exists 1%nat, ([], []). simpl. auto. }
+        { unfold kind_ok, struct_of. cbn. rewrite str_eqb_refl. cbn. f_equal. eapply item_ty; eassumption. }
     Qed.
 
     Lemma step_ok : rec_ok (step md S rec).
@@ -1115,12 +1119,30 @@ Section Final.
     unfold all_present in Hp. rewrite forallb_forall in Hp. specialize (Hp _ Hin). simpl in Hp.
     rewrite Hcls, orb_diag in Hp. unfold registered in Hp.
     destruct (alookup n (parsed s)) as [e|] eqn:E; [|discriminate].
-    destruct HI as [HI _]. destruct (HI _ _ (alookup_In _ _ _ E)) as [(nd' & Hl' & _ & Hc & (f & m & Hd & H1 & H2)) _].
+    destruct HI as [HI _]. destruct (HI _ _ (alookup_In _ _ _ E)) as [(nd' & Hl' & _ & Hc & (f & m & Hd & H1 & H2) & _) _].
     rewrite Hl in Hl'. inversion Hl'; subst nd'.
     exists e. split; [exact E|]. split.
     - destruct Hc as (C1 & C2 & C3 & C4 & _). unfold flags_of. rewrite C1, C2, C3, C4. reflexivity.
     - exists f. unfold declared_f. rewrite Hl, Hd. simpl. f_equal.
       unfold fields_of_member, fields_of. rewrite <- H1, <- H2. unfold fvals. rewrite map_map. reflexivity.
+  Qed.
+
+  (* the schema's own model has the structural kind the document gives it *)
+  Theorem C02_core_kind :
+    let s := parse_doc md S in
+    events s = [] -> oof s = false -> all_present S s = true ->
+    forall n nd, alookup n S = Some nd -> exists e, alookup n (parsed s) = Some e /\ kind_ok nd e.
+  Proof.
+    intros s He Ho Hp n nd Hl.
+    assert (ND : nodup_strs (map fst S) = true).
+    { unfold core_spec in HS. apply andb_true_iff in HS. apply HS. }
+    assert (HI : Inv S s) by (apply build_ok; [exact ND | apply Inv_st0 | exact He | exact Ho]).
+    destruct (spec_facts S HS _ _ Hl) as (_ & Hcls & _).
+    unfold all_present in Hp. rewrite forallb_forall in Hp. specialize (Hp _ (alookup_In _ _ _ Hl)). simpl in Hp.
+    rewrite Hcls, orb_diag in Hp. unfold registered in Hp.
+    destruct (alookup n (parsed s)) as [e|] eqn:E; [|discriminate].
+    destruct HI as [HI _]. destruct (HI _ _ (alookup_In _ _ _ E)) as [(nd' & Hl' & _ & _ & _ & Hk) _].
+    rewrite Hl in Hl'. inversion Hl'; subst nd'. exists e. auto.
   Qed.
 End Final.
 
@@ -1808,6 +1830,12 @@ Section Static.
   Theorem C02_acyclic : forall n, In n (map fst S) -> faithful S (parse_doc md S) n.
   Proof.
     destruct acyclic_clean as (A & O & P). intros n Hn. apply (C02_core md S HS A O P n Hn).
+  Qed.
+
+  Theorem C02_acyclic_kind : forall n nd, alookup n S = Some nd ->
+    exists e, alookup n (parsed (parse_doc md S)) = Some e /\ kind_ok nd e.
+  Proof.
+    destruct acyclic_clean as (A & O & P). intros n nd Hl. apply (C02_core_kind md S HS A O P n nd Hl).
   Qed.
 End Static.
 
